@@ -312,3 +312,30 @@ c('TimeZoneRef::find_local_time_type_from_local', U,
   ensures="from_local_post(self.transitions@, self.local_time_types@, unix_secs(local_time), r)")
 c('TimeZoneRef::validate', U,
   ensures="r is Ok ==> tz_wf(self.transitions@, self.local_time_types@)")
+
+# ------------------------------------------------------------------------------------------------
+# C05/C16  POSIX TZ rule helpers (src/offset/local/tz_info/rule.rs) -- Verus (units/tzrule.py)
+U = 'verus:tzrule'
+c('is_leap_year', U, ensures="r == is_leap(year as int)")
+c('days_since_unix_epoch', U, requires="1 <= month <= 12, -1000 <= month_day <= 1000",
+  ensures="r as int == epoch_day(year as int, month as int, month_day as int)")
+c('RuleDay::julian_1', U, ensures="r is Ok <==> 1 <= julian_day_1 <= 365, r is Ok ==> r->Ok_0 == RuleDay::Julian1WithoutLeap(julian_day_1)")
+c('RuleDay::julian_0', U, ensures="r is Ok <==> julian_day_0 <= 365, r is Ok ==> r->Ok_0 == RuleDay::Julian0WithLeap(julian_day_0)")
+c('RuleDay::month_weekday', U, ensures="r is Ok <==> (1 <= month <= 12 && 1 <= week <= 5 && week_day <= 6), r is Ok ==> r->Ok_0 == (RuleDay::MonthWeekday { month, week, week_day })")
+c('RuleDay::transition_date', U, requires="rd_wf(*self)",
+  ensures="1 <= r.0 <= 12, 1 <= r.1 <= 32, rd_date_ok(*self, year as int, r.0 as int, r.1 as int)")
+c('RuleDay::unix_time', U, requires="rd_wf(*self), -700_000 <= day_time_in_utc <= 700_000",
+  ensures="exists|m: int, d: int| 1 <= m <= 12 && 1 <= d <= 32 && #[trigger] rd_date_ok(*self, year as int, m, d) && r as int == epoch_day(year as int, m, d) * 86400 + day_time_in_utc as int, -70_000_000_000_000_000 < r < 70_000_000_000_000_000")
+c('AlternateTime::new', U,
+  ensures="r is Ok <==> (-604800 < dst_start_time < 604800 && -604800 < dst_end_time < 604800), "
+          "r is Ok ==> r->Ok_0.std == std && r->Ok_0.dst == dst && r->Ok_0.dst_start == dst_start && r->Ok_0.dst_start_time == dst_start_time && r->Ok_0.dst_end == dst_end && r->Ok_0.dst_end_time == dst_end_time")
+AWF = "rd_wf(self.dst_start) && rd_wf(self.dst_end) && -604800 < self.dst_start_time < 604800 && -604800 < self.dst_end_time < 604800 && -86400 < self.std.ut_offset < 86400 && -86400 < self.dst.ut_offset < 86400"
+c('UtcDateTime::from_timespec', U,
+  ensures="r is Ok ==> (1 <= r->Ok_0.month <= 12 && r->Ok_0.hour < 24 && r->Ok_0.minute < 60 && r->Ok_0.second < 60)")
+c('AlternateTime::find_local_time_type', U, requires=AWF,
+  ensures="r is Ok ==> (*r->Ok_0 == self.std || *r->Ok_0 == self.dst)")
+c('NaiveDateTime::Datelike__year', 'kani:vk_ndt_accessors,vk_date_bits', ensures="r as int == v_year(self.date)")
+c('AlternateTime::find_local_time_type_from_local', U, requires=AWF + " && dtwf(local_time)",
+  ensures="r is Ok, (r->Ok_0 is Single ==> (r->Ok_0->Single_0 == self.std || r->Ok_0->Single_0 == self.dst)), "
+          "(r->Ok_0 is Ambiguous ==> r->Ok_0->Ambiguous_0.ut_offset > r->Ok_0->Ambiguous_1.ut_offset "
+          "&& ((r->Ok_0->Ambiguous_0 == self.std && r->Ok_0->Ambiguous_1 == self.dst) || (r->Ok_0->Ambiguous_0 == self.dst && r->Ok_0->Ambiguous_1 == self.std)))")
